@@ -15,9 +15,6 @@ Definition iface1u : iface rstate :=
      i_spush := r_spush; i_spop := r_spop; i_count := r_count; i_cut := r_cut;
      i_result := r_slots |}.
 
-Definition mkr (sl aux : list val) (K : list alt) : rstate :=
-  {| r_slots := sl; r_aux := aux; r_alts := K; r_max := 0 |}.
-
 Inductive cfg :=
 | Run (pc ix : nat) (sl aux : list val) (K : list alt)
 | Fail (K : list alt)
@@ -26,7 +23,11 @@ Inductive cfg :=
 Section Machine.
 Variable cx : ctx.
 Variable P : list insn.
+Variable M : nat.                       (* the stack bound: carried, never read by this machine *)
 Let t := c_text cx.
+
+Definition mkr (sl aux : list val) (K : list alt) : rstate :=
+  {| r_slots := sl; r_aux := aux; r_alts := K; r_max := M |}.
 
 Definition mstep (c : cfg) : cfg :=
   match c with
